@@ -26,6 +26,14 @@ type RecStorage struct {
 	// EffsAtFail is the number of mutating calls recorded when the last injected Retrieve failure
 	// fired (0 = the request had not touched storage yet: the failure hit its lookup phase).
 	EffsAtFail int
+	// FailGenerateAt / FailRemoveAt / FailStoreAt: 1-based position of the GenerateSlabID / Remove / Store
+	// call that fails with the RAW error ErrInjected, nothing forwarded to Inner (0 = none).  RecStorage is
+	// a caller-implemented SlabStorage: the container code has to categorise its errors (C18).
+	Generates, FailGenerateAt int
+	Removes, FailRemoveAt     int
+	Stores, FailStoreAt       int
+	// FailFired: an injected Generate / Remove / Store / positional Retrieve failure was delivered.
+	FailFired bool
 	// HideLargeValues makes the storage answer ABSENT (found=false, err=nil; RetrieveIfLoaded: nil) for every
 	// large-value slab (*atree.StorableSlab) while the container slabs that refer to them stay readable: the
 	// view of a storage from which a referenced slab has disappeared.  Hidden lists the slabs asked for.
@@ -44,15 +52,37 @@ func NewRecStorage(inner atree.SlabStorage) *RecStorage {
 
 func (r *RecStorage) Reset() { r.Effs = r.Effs[:0] }
 
+// ResetFail clears every positional fault and call counter (not FailRetrieve, not the effect list).
+func (r *RecStorage) ResetFail() {
+	r.Retrieves, r.FailRetrieveAt, r.EffsAtFail = 0, 0, 0
+	r.Generates, r.FailGenerateAt, r.Removes, r.FailRemoveAt, r.Stores, r.FailStoreAt = 0, 0, 0, 0, 0, 0
+	r.FailFired = false
+}
+
 func (r *RecStorage) Store(id atree.SlabID, s atree.Slab) error {
+	r.Stores++
+	if r.FailStoreAt != 0 && r.Stores == r.FailStoreAt {
+		r.FailFired, r.EffsAtFail = true, len(r.Effs)
+		return ErrInjected
+	}
 	r.Effs = append(r.Effs, Eff{'s', id})
 	return r.Inner.Store(id, s)
 }
 func (r *RecStorage) Remove(id atree.SlabID) error {
+	r.Removes++
+	if r.FailRemoveAt != 0 && r.Removes == r.FailRemoveAt {
+		r.FailFired, r.EffsAtFail = true, len(r.Effs)
+		return ErrInjected
+	}
 	r.Effs = append(r.Effs, Eff{'r', id})
 	return r.Inner.Remove(id)
 }
 func (r *RecStorage) GenerateSlabID(a atree.Address) (atree.SlabID, error) {
+	r.Generates++
+	if r.FailGenerateAt != 0 && r.Generates == r.FailGenerateAt {
+		r.FailFired, r.EffsAtFail = true, len(r.Effs)
+		return atree.SlabID{}, ErrInjected
+	}
 	id, err := r.Inner.GenerateSlabID(a)
 	if err == nil {
 		r.Effs = append(r.Effs, Eff{'a', id})
@@ -62,7 +92,7 @@ func (r *RecStorage) GenerateSlabID(a atree.Address) (atree.SlabID, error) {
 func (r *RecStorage) Retrieve(id atree.SlabID) (atree.Slab, bool, error) {
 	r.Retrieves++
 	if r.FailRetrieve[id] || (r.FailRetrieveAt != 0 && r.Retrieves == r.FailRetrieveAt) {
-		r.EffsAtFail = len(r.Effs)
+		r.FailFired, r.EffsAtFail = true, len(r.Effs)
 		r.FailHits++
 		r.LastFailID = id
 		return nil, false, ErrInjected
